@@ -1,6 +1,6 @@
 HARNESSES = {
     'Section': dict(split={'count': 4}, quick=dict(params={'L': 8}), thorough=dict(params={'L': 10})),
     'PaletteChunk': dict(split={'format': 4, 'lenwidth': 3}, quick=dict(params={'N': 3}), thorough=dict(params={'N': 6})),
-    'ViewBoxChunk': dict(split={'hot': 4, 'width': 3}),
+    'ViewBoxChunk': dict(split={'hot': 4, 'width': 3, 'two': 2}),
     'Delivered': dict(quick=dict(params={'L': 7}), thorough=dict(params={'L': 9})),
 }
